@@ -798,6 +798,33 @@ def probe_scenarios(thorough, rnd):
                         on_close="answer", timeout_ms=300, reply_size=dict(which="GetReaderConfigResponse", n=n, want="SpeedwayR-34-56-78")))
         out.append(dict(name="probe/reply-size/caps/%d" % n, first=first, config=ok_c, caps=dict(typ=11, phex=padded(caps_ok, n).hex()),
                         on_close="answer", timeout_ms=300, reply_size=dict(which="GetReaderCapabilitiesResponse", n=n, want="SpeedwayR-34-56-78")))
+    # hosts that answer everything CORRECTLY, with boundary CONTENT in the replies probe looks into: Identification with each
+    # IDType x ReaderID of 0, 1, 2, 3, 8, 255, 4096 bytes; no Identification; capabilities without GeneralDeviceCapabilities,
+    # with an empty / a huge firmware string, with vendor and model zero
+    def content(name, config_pl, caps_pl, ab):
+        sc = dict(name="probe/content/" + name, first=first, config=dict(typ=12, phex=config_pl.hex()), caps=dict(typ=11, phex=caps_pl.hex()),
+                  on_close="answer", timeout_ms=100)
+        if ab:
+            sc["_"] = dict(se="closed", config=ab[0], caps=ab[1])
+        out.append(sc)
+    for idt in (0, 1) + ((2, 255) if thorough else (255,)):
+        for n in (0, 1, 2, 3, 8, 255, 4096):
+            cfgp = _cat([status_msg(0, b""), tlv(218, bytes([idt]), lstr(payload(700 + n, n)))])[0]
+            content("identification/type%d/len%d" % (idt, n), cfgp, caps_ok, ("with", "with"))
+    content("no-identification", status_msg(0, b"")[0], caps_ok, ("without", "with"))
+    content("identification-then-custom", _cat([status_msg(0, b""), tlv(218, b"\x00", lstr(b"\x01\x02")), tlv(1023, struct.pack(">II", 1, 1))])[0],
+            caps_ok, ("with", "with"))
+    content("caps/no-general-capabilities", config_ok, status_msg(0, b"")[0], ("with", "without"))
+    for fname, fw in (("empty-firmware", b""), ("huge-firmware", payload(710, 60000)), ("one-byte-firmware", b"x")):
+        content("caps/%s" % fname, config_ok, _cat([status_msg(0, b""), tlv(137, gdc_fixed, lstr(fw), tlv(139, struct.pack(">HH", 1, 0)),
+                                                                            tlv(141, struct.pack(">HH", 4, 4)))])[0], ("with", "with"))
+    for vname, vend, model in (("zero-vendor-model", 0, 0), ("impinj-unknown-model", 25882, 0), ("max-vendor-model", 0xFFFFFFFF, 0xFFFFFFFF)):
+        content("caps/%s" % vname, config_ok, _cat([status_msg(0, b""), tlv(137, struct.pack(">HHII", 4, 0x8000, vend, model), lstr(b"fw"),
+                                                                             tlv(139, struct.pack(">HH", 1, 0)), tlv(141, struct.pack(">HH", 4, 4)))])[0], None)
+    # ... and the combination: shortest IDs with absent capabilities
+    for n in (0, 1, 2):
+        content("identification/type0/len%d+no-general-capabilities" % n,
+                _cat([status_msg(0, b""), tlv(218, b"\x00", lstr(payload(720 + n, n)))])[0], status_msg(0, b"")[0], ("with", "without"))
     # both requests fail
     for mname, m in modes(12, config_ok)[1:4]:
         add("config-%s+caps-%s/answer" % (mname, mname), m, dict(modes(11, caps_ok))[mname], "answer")
